@@ -14,6 +14,9 @@ import re
 from . import kernel, model, world
 
 PROP = "C15"
+EXPECTED_PROBES = ["distinguishing_reuse", "lazy_resumed_after_switch",
+                   "evicting_caches", "cache_hits", "client_changes",
+                   "reissued_ops"]
 
 SWITCH_PATHS = ["set_mode_default", "set_mode_global", "dto_opt", "dto_env",
                 "main_opt", "main_env", "equiv", "none", "dto_noenv"]
